@@ -1563,6 +1563,38 @@ def torchrl_step_on_a_copy(ctx: Ctx):
     ctx.ob("C01.r", "RL4COEnvBase._torchrl_step:_step-works-on-a-deep-copy", deep, fi.loc,
            f"self._step({why}): deep copy of the caller's state -- {deep}" + ("" if deep else "; in-place state updates of _step (MDCPDP, SVRP, FFSP ...) reach the caller's tensors"),
            construct="RL4COEnvBase._torchrl_step:state-copy")
+    torchrl_preset_never_overrides(ctx, "C01.r")
+
+
+def torchrl_preset_never_overrides(ctx: Ctx, rid: str):
+    """C01.r / C08.k what the caller had stored under "next" may only ADD keys to the successor state `_step` computed: every
+    `<successor>.update(X)` in `_torchrl_step` takes X = <preset>.exclude(*<successor>.keys(...)).  A plain `update(<preset>)`
+    puts the previous successor (a driver that keeps stepping the root tensordict carries it along) over the fresh one: mask,
+    counters, bookkeeping and `done` stop advancing."""
+    import ast
+    cls = ctx.repo.get_class("rl4co/envs/common/base.py", "RL4COEnvBase")
+    fi = cls.methods.get("_torchrl_step")
+    if fi is None:
+        raise AnalysisError("RL4COEnvBase._torchrl_step not found")
+    ctx.fn(fi)
+    succ = {t.id for st in ast.walk(fi.node) if isinstance(st, ast.Assign) for t in st.targets if isinstance(t, ast.Name)
+            and any(isinstance(c, ast.Call) and isinstance(c.func, ast.Attribute) and c.func.attr in ("_step", "_step_proc_data") for c in ast.walk(st.value))}
+    ups = [c for c in ast.walk(fi.node) if isinstance(c, ast.Call) and isinstance(c.func, ast.Attribute) and c.func.attr in ("update", "update_", "set", "set_")
+           and isinstance(c.func.value, ast.Name) and c.func.value.id in succ]
+    if not succ:
+        raise AnalysisError("RL4COEnvBase._torchrl_step: successor state variable not found")
+    bad = []
+    for c in ups:
+        x = c.args[0] if c.args else None
+        ok = (c.func.attr == "update" and isinstance(x, ast.Call) and isinstance(x.func, ast.Attribute) and x.func.attr == "exclude" and len(x.args) == 1 and isinstance(x.args[0], ast.Starred)
+              and isinstance(x.args[0].value, ast.Call) and isinstance(x.args[0].value.func, ast.Attribute) and x.args[0].value.func.attr == "keys"
+              and isinstance(x.args[0].value.func.value, ast.Name) and x.args[0].value.func.value.id == c.func.value.id)
+        if not ok:
+            bad.append((c.lineno, ast.unparse(c)[:70]))
+    ctx.ob(rid, "RL4COEnvBase._torchrl_step:preset-next-only-adds-keys", not bad, fi.loc,
+           f"{len(ups)} write(s) into the computed successor state, each through <preset>.exclude(*<successor>.keys(..))" if not bad else
+           f"the computed successor state is overwritten: {bad} -- stale entries carried under 'next' replace the fresh mask / counters / bookkeeping / done",
+           construct="RL4COEnvBase._torchrl_step:preset-overrides-successor")
 
 
 def run_thorough(ctx: Ctx):
